@@ -3,8 +3,9 @@
    [good pick disk rank fuel h]: [pick] (the iteration order of the server's hash maps) is any
    permutation; every import of every document version in [h] and on [disk] goes to a document of
    smaller [rank] (one DAG order for the whole history), ranks are below [fuel]; the client sends
-   didChange only for open documents.  [cf] is any configuration of the model (the code as it
-   is, [cfg_code], or with the proposed patches, [cfg_patched]). *)
+   didChange only for open documents.  [cf] is any configuration of the model: [cfg_patched] is the
+   code as it is now, [cfg_code] the code before the fixes 36b39fb (close_file) and 257606a
+   (self import) that this model led to. *)
 From Coq Require Import List Arith Permutation.
 Import ListNotations.
 From NV Require Import Lsp.World Lsp.Spec Lsp.Inv Lsp.Witness Lsp.SelfImport Lsp.Main.
@@ -44,8 +45,8 @@ Proof. exact answers_history_independent. Qed.
 
 (* no stale and no missing diagnostics: what was last published for a current file is what a
    fresh server computes from the final documents, and every open document has been published.
-   For the code with the proposed close_file patch on every history; for the code as it is on
-   histories without didClose (C19_closed_buffer_refuted shows that restriction is needed). *)
+   For the code as it is now ([purge_closed] = true) on every history; for the code before fix
+   36b39fb only on histories without didClose (C19_closed_buffer_refuted: the restriction is needed). *)
 Theorem C19_no_dup_no_stale : forall cf pick disk rank fuel h w, good pick disk rank fuel h ->
   (purge_closed cf = true \/ no_close h) ->
   run cf pick disk fuel h = Ok w ->
@@ -72,9 +73,11 @@ Proof. exact failed_imports_complete. Qed.
 Theorem C19_good_example : good idpick disk1 rank1 2 hist1.
 Proof. exact good_example. Qed.
 
-(* The model of the code as it is violates the property outside that class, and — for the
-   diagnostics published for a closed file — inside it (replayed on the real server: corpus/C19,
-   known_findings.txt). *)
+(* Refuted statements, each with a witness replayed on the real server (corpus/C19,
+   known_findings.txt): before fix 36b39fb the diagnostics published for a closed file could be
+   stale even inside the class of the theorems; with cyclic imports (outside that class, still the
+   case) diagnostics depend on the order of the history; before fix 257606a a self import made the
+   server overflow its stack. *)
 Theorem C19_closed_buffer_refuted :
   exists rank disk h w ds,
     hist_respects rank disk h /\ client_ok no_bufs h = true /\
@@ -96,7 +99,7 @@ Theorem C19_self_import_diverges :
   forall fuel, run cfg_code idpick nodisk fuel [Open 0 (mkC 1 [0] SOk)] = Crash Overflow.
 Proof. exact self_import_overflows. Qed.
 
-(* the proposed patches repair the two witnesses *)
+(* the two fixes repair their witnesses *)
 Theorem C19_closed_buffer_patched :
   exists w, run cfg_patched idpick disk1 50 hist1 = Ok w /\ w_pub w 0 = Some [].
 Proof. exact closed_buffer_patched. Qed.
